@@ -187,6 +187,10 @@ func registerIntrinsics(e *Engine) {
 	// ----- logging and formatting -----
 	e.pkgStubs["github.com/rs/zerolog"] = zeroRes
 	e.pkgStubs["github.com/rs/zerolog/log"] = zeroRes
+	// reflection is not modelled (DESIGN 2.4): calls fail closed
+	e.pkgStubs["reflect"] = func(x *Exec, caller *frame, fn *ssa.Function, args []Value) Value {
+		panic(x.unsupported("reflect." + fn.Name() + " (reflection is not modelled)"))
+	}
 	I["fmt.Sprintf"] = func(x *Exec, caller *frame, fn *ssa.Function, args []Value) Value {
 		return x.fmtString(args[0].(*Str), args[1].(Slice))
 	}
